@@ -638,6 +638,14 @@ class Check(PropertyCheck):
                             "input": inp(c), "llbuild": lc.decode("latin1"), "ninja": e["cmd"].decode("latin1")})
                         break
         shutil.rmtree(scratch, ignore_errors=True)
+        # one representative of every distinct failure class first (the runner prints the first five)
+        seen_cls, first, rest = set(), [], []
+        for f in res.oracle_failures:
+            cls = (f.get("kind"), f.get("field"), tuple(f.get("loader_errors", [])))
+            (rest if cls in seen_cls else first).append(f)
+            seen_cls.add(cls)
+        first.sort(key=lambda f: 0 if f.get("kind") == "crash" else 1)
+        res.oracle_failures[:] = first + rest
         res.evaluations += len(cases)
         res.distinct_nontrivial += spec_valid
         res.distribution = {"cases": len(cases), "valid_stream": sum(1 for c in cases if c["kind"] == "valid"),
